@@ -567,7 +567,9 @@ func sameX(a, b map[string]string) bool {
 func Groups(t Tree) []string {
 	m := map[int][]string{}
 	for _, n := range t {
-		if n.HL > 0 {
+		// names of one symlink inode are not an identity any of the properties fixes: neither the wire format nor
+		// the copier has a way to keep them (the link-name field of a symlink is its target)
+		if n.HL > 0 && n.Kind != Symlink {
 			m[n.HL] = append(m[n.HL], n.Path)
 		}
 	}
